@@ -5,8 +5,10 @@ loop summariser before the paths of one iteration are merged) and returns the fi
 Rules use it to decide, without reference to statement shapes or names, which elements a loop skips (the disjunction of the
 decisions of the paths that do nothing), what every other path does (its events since loop entry) and under which condition.
 """
+import re
+
 from .interp import Interp, Scenario, render
-from .condtab import split_filter, skeleton, atoms, table
+from .condtab import split_filter, from_fact, atoms, table, atom_name
 
 
 class LoopRec(object):
@@ -39,7 +41,7 @@ def path_cond(facts):
     for f in facts:
         if len(f) < 3 or f[2] is None:
             continue            # exception edges / loop markers are not conditions of the element
-        sk = skeleton(f[0])
+        sk = from_fact(f[0], f[2])
         out.append(sk if f[1] else ('not', sk))
     return ('and', out)
 
@@ -51,6 +53,7 @@ def any_of(conds):
 def atom_value(facts, atom):
     """Value of an atom on a path whose decisions fix it (None when the path does not depend on it / not uniquely)."""
     sk = path_cond(facts)
+    atom = atom_name(atom) or atom
     if atom not in atoms(sk):
         return None
     tab, names = table(sk)
@@ -60,3 +63,19 @@ def atom_value(facts, atom):
 
 def fact_texts(facts):
     return [f[0] if f[1] else 'not ' + f[0] for f in facts]
+
+
+def fresh_objects(events):
+    """{local name: 'Cls()'} for objects constructed without arguments and first bound to that local on the path: the interpreter
+    renders such an object by the local's name; rules respell it as the constructor call so that no local name matters."""
+    out = {}
+    for a, b in zip(events, events[1:]):
+        if a[0] == 'call' and re.match(r'^[A-Z]\w*$', a[1]) and not a[2] and not a[3] and b[0] == 'assign' and b[1] == b[2]:
+            out[b[1]] = '%s()' % a[1]
+    return out
+
+
+def respell(text, names):
+    for n, ctor in names.items():
+        text = re.sub(r'(?<![\w.$\'"])%s(?![\w(\'"])' % re.escape(n), ctor, text)
+    return text
